@@ -582,6 +582,9 @@ func (g *Gen) lookup(in *ssa.Lookup, st *State, reach string) {
 		g.mapHeapsTouch(u)
 		vk, vs, hk, hs, _, _ := g.mapHeaps(u)
 		ks := g.rvalue(k, st, in.Pos())
+		if isString(u.Key()) {
+			g.seeMapKey(ks)
+		}
 		has := "(and (not (= " + x.S + " 0)) (select (select " + g.heapGet(st, hk, hs) + " " + x.S + ") " + ks + "))"
 		val := "(ite " + has + " (select (select " + g.heapGet(st, vk, vs) + " " + x.S + ") " + ks + ") " + g.zero(u.Elem()) + ")"
 		if in.CommaOk {
@@ -611,6 +614,9 @@ func (g *Gen) mapUpdate(in *ssa.MapUpdate, st *State, reach string) {
 	vk, vs, hk, hs, lk, ls := g.mapHeaps(mt)
 	g.safeObl("safe-nil", "(not (= "+m.S+" 0))", reach, in.Pos(), "assignment to entry in nil map")
 	ks := g.rvalue(k, st, in.Pos())
+	if isString(mt.Key()) {
+		g.seeMapKey(ks)
+	}
 	hh := g.heapGet(st, hk, hs)
 	hv := g.heapGet(st, vk, vs)
 	hl := g.heapGet(st, lk, ls)
